@@ -434,7 +434,12 @@ def some_ref(rnd, n, acts=None, allow_bare=True):
 def some_expr(rnd, cols, k):
     """comparison fragment (table-level CHECK): col op number | col op col | comparison AND comparison, op incl. '='"""
     c = rnd.choice(cols)
-    form = rnd.randrange(4)
+    form = rnd.randrange(6)
+    if form == 4:
+        # a function call inside the condition: its parentheses nest inside the CHECK's own
+        return ("%s(%s)" % (rnd.choice(["length", "abs", "upper"]), c), rnd.choice(OPS_EQ[:4]), 2 + k)
+    if form == 5 and len(cols) > 1:
+        return ("coalesce(%s, 0)" % c, rnd.choice(OPS_EQ[:4]), rnd.choice([x for x in cols if x != c]))
     if form == 0 and len(cols) > 1:
         return (c, rnd.choice(OPS_EQ), rnd.choice([x for x in cols if x != c]))
     if form == 1:
